@@ -309,7 +309,7 @@ func TestVerifC40(t *testing.T) {
 	rec := kit.Start(t, "C40", "incremental")
 	defer rec.Finish()
 	env := rec.Env
-	n := env.Pick(40, 1000)
+	n := env.Pick(40, 300)
 	for ci := 0; ci < n; ci++ {
 		if !env.Mine(ci) {
 			continue
